@@ -21,7 +21,9 @@ Ev == Traces[tid].events
 (* ---- the projection of the spec's NEXT state, in the shape harness/onion.py logs it ---- *)
 PCirc(n) == {[cid |-> c, goal |-> circ'[n][c].goal, hops |-> HopPeers(circ'[n][c]), unv |-> circ'[n][c].unv.peer,
               via |-> FirstHopAddr(circ'[n][c]),      \* the address cells of this circuit are sent to / accepted from
-              act |-> circ'[n][c].act,                 \* last activity (what the inactivity sweep goes by)
+              \* last activity (what the inactivity sweep goes by); not compared while the circuit has no hop: a cell for it
+              \* carries no layer that could be checked, the code counts it as activity (the sweep ignores such circuits)
+              act |-> IF circ'[n][c].hops = <<>> THEN 0 ELSE circ'[n][c].act,
               closing |-> circ'[n][c].closing, early |-> circ'[n][c].early, ctype |-> circ'[n][c].ctype,
               hs |-> circ'[n][c].hs # NoKey] : c \in DOMAIN circ'[n]}
 PRelay(n) == {[cid |-> c, to |-> relay'[n][c].to, next |-> relay'[n][c].next, dir |-> relay'[n][c].dir,
@@ -71,6 +73,7 @@ Step(e) ==
     [] e.a = "SendE2E"       -> SendE2E(e.o, e.cid)
     [] e.a = "SendTest"      -> SendTest(e.o, e.cid)
     [] e.a = "RPForge"       -> RPForge(e.rp, e.cid)
+    [] e.a = "RPReflect"     -> \E d \in net : d.id = e.id /\ RPReflect(e.rp, d)
     [] e.a = "OutsideNested" -> OutsideNested(e.x, e.cid, e.target)
     [] e.a = "TransportsReady" -> TransportsReady(e.n, e.cid)
     [] e.a = "Transport4Ready" -> Transport4Ready(e.n, e.cid)
